@@ -9,7 +9,7 @@ namespace Evp
 
 namespace SList
 
-theorem remove_fst (L : SList) (h : Hd) : (L.remove h).1 = L.erase h := by
+theorem remove_fstR (L : SList) (h : Hd) : (L.remove h).1 = L.erase h := by
   unfold remove
   split
   · rfl
@@ -55,7 +55,7 @@ theorem foldl_remove (hs : List Hd) (L : SList) :
   induction hs generalizing L with
   | nil => exact (List.filter_eq_self.mpr (by simp)).symm
   | cons h r ih =>
-    rw [List.foldl_cons, ih, remove_fst]
+    rw [List.foldl_cons, ih, remove_fstR]
     show List.filter _ (List.filter _ L) = _
     rw [List.filter_filter]
     congr 1
@@ -489,7 +489,7 @@ theorem Resp_step {w : RW} (H : Resp w) (op : ROp) : Resp (step w op).1 := by
         split
         · apply Resp_mk
           · exact Names_ins hn _ _
-          · rw [remove_fst]
+          · rw [remove_fstR]
             refine (RespF_rremove hf (r := r) hr ht h).congr ?_
             intro r'; simp only [setRem_rems, lk_ins]
         · exact H
@@ -569,7 +569,7 @@ theorem Resp_step {w : RW} (H : Resp w) (op : ROp) : Resp (step w op).1 := by
     simp only [step]
     apply Resp_mk
     · exact hn
-    · rw [remove_fst]
+    · rw [remove_fstR]
       exact RespF_remove_direct hf l h
 
 theorem Resp_run {w : RW} (H : Resp w) (ops : List ROp) : Resp (run w ops).1 := by
@@ -702,7 +702,7 @@ theorem present_upd (lists : Store SList) (l l' : Nat) (L' : SList) (x : Hd) :
   rw [upd_get]; split <;> rfl
 
 theorem present_remove (L : SList) (h x : Hd) : ((L.remove h).1).present x = (L.present x && x != h) := by
-  rw [remove_fst, present_erase]
+  rw [remove_fstR, present_erase]
 
 theorem present_insert (L : SList) (id cb b) (x : Hd) : (L.insert id cb b).present x = (L.present x || x == id) := by
   rw [Bool.eq_iff_iff]
